@@ -28,7 +28,7 @@ KIND_KEY = {"in": "AcceptConnect:inbound-limit", "ip": "AcceptConnect:per-ip-lim
 RACE_KEYS = [k + ":stale-check" for k in KIND_KEY.values()]
 
 
-def cfg_text(conns, max_in, max_ip, max_out, check_then_act, split, invariants, export):
+def cfg_text(conns, max_in, max_ip, max_out, check_then_act, split, invariants, export, snap=True):
     t = """SPECIFICATION Spec
 CONSTANTS
   Conns <- %s
@@ -43,19 +43,24 @@ CONSTANTS
   MaxOut = %d
   CheckThenAct = %s
   SplitCheck = %s
+  TrackSnap = %s
 VIEW view
 CHECK_DEADLOCK FALSE
 INVARIANTS %s
-""" % (conns, max_in, max_ip, max_out, "TRUE" if check_then_act else "FALSE", "TRUE" if split else "FALSE", " ".join(invariants))
+""" % (conns, max_in, max_ip, max_out, "TRUE" if check_then_act else "FALSE", "TRUE" if split else "FALSE",
+       "TRUE" if snap else "FALSE", " ".join(invariants))
     if export:
         t += "CONSTRAINT InitOut\nACTION_CONSTRAINT Edge\n"
     return t
 
 
-def tlc(ctx, name, conns, lim, check_then_act, split, invariants, export, workers=None, timeout=1500):
+def tlc(ctx, name, conns, lim, check_then_act, split, invariants, export, workers=None, timeout=1500, snap=None):
+    if snap is None:
+        # ghost snapshots refine the replayed (coarse) graphs; the 7-connection universe stays at plain state identity
+        snap = export and conns != "ConnsT"
     cfg = "ConnCtrl_gen_%s.cfg" % name
     r = ctx.tlc("ConnCtrl_MC", cfg=cfg, workers=1 if export else workers, timeout=timeout,
-                files={cfg: cfg_text(conns, lim[0], lim[1], lim[2], check_then_act, split, invariants, export)})
+                files={cfg: cfg_text(conns, lim[0], lim[1], lim[2], check_then_act, split, invariants, export, snap)})
     ctx.log("TLC %s (%s in=%d ip=%d out=%d cta=%s split=%s): %s, %d generated, %d distinct, depth %d, %.1fs" % (
         name, conns, lim[0], lim[1], lim[2], check_then_act, split, r.status if not r.violated else "violated " + r.violated,
         r.generated, r.distinct, r.depth, r.wall))
@@ -64,7 +69,7 @@ def tlc(ctx, name, conns, lim, check_then_act, split, invariants, export, worker
 
 def norm_state(s):
     return {"pc": s["pc"], "inb": sorted(s["inb"]), "outb": sorted(s["outb"]), "lsn": sorted(s["lsn"]),
-            "cing": sorted(s["cing"]), "peers": s["peers"]}
+            "cing": sorted(s["cing"]), "peers": s["peers"], "snap": s.get("snap", {})}
 
 
 def limits_of_model_state(s, lim):
